@@ -30,9 +30,11 @@ CFG = {
     "level_note": "Trusted: Coq kernel; Cddl/ConwayCddl.v as a transcription of the published Conway CDDL (sets in the tagged form the "
                   "library must emit; unit-interval side conditions from the CDDL comments); Ledger/Schemas.v as a description of the "
                   "Rust serializers (tied by the exact differential run only on generated cases); extraction and the OCaml/Rust glue. "
-                  "No axioms. The full statement (refines s r -> wfv s v -> cddl_ok_bytes r (enc s v)) is kept as C03_full; what is "
-                  "proved generically is canonical form, set sites and table agreement (C03_conforms_partial).",
-    "theorems": ["C03_wellformed", "C03_canonical", "C03_canonical_ledger", "C03_sets", "C03_set_site", "C03_tables", "C03_bytes_of_tree", "C03_fuel_monotone", "C03_conforms_partial"],
+                  "No axioms. C03_conforms: every schema-valid typed value satisfying the decidable Conway constraints (conforms: "
+                  "structure of schema vs rule along the value + leaf ranges) is emitted as bytes the validator accepts - one generic "
+                  "proof. The value-INDEPENDENT form (refines s r) is kept as C03_full and is not provable for these schemas (lower "
+                  "bounds are not expressible in the schema language).",
+    "theorems": ["C03_wellformed", "C03_canonical", "C03_canonical_ledger", "C03_sets", "C03_set_site", "C03_tables", "C03_bytes_of_tree", "C03_fuel_monotone", "C03_conforms", "C03_conforms_conway", "C03_mint_int64_refuted", "C03_conforms_partial"],
     "allowed_axioms": [],
     "compare": _compare,
     "nontrivial": _nontrivial,
